@@ -95,3 +95,15 @@ func OracleFullVsMem(prefix string) SeqOracle {
 		return nil
 	}
 }
+
+// OracleRefMem is OracleRef for in-memory executions only: over real connections the order of replies to
+// different clients within one step is not observable, so full-node executions are judged differentially.
+func OracleRefMem(o RefOpts) SeqOracle {
+	ref := OracleRef(o)
+	return func(r *SeqRun) []explore.Violation {
+		if r.Spec.Full {
+			return nil
+		}
+		return ref(r)
+	}
+}
